@@ -438,7 +438,9 @@ def main(argv=None):
     import aw_datastore.storages.sqlite as sq
     import jsonschema
 
-    proved = ck.prove(extra_targets=["Proofs/Codec.v", "Model/EventWire.v"])
+    # Proofs/PyFloatExhaustive.v: the axiom-free exhaustive proof of the ms floor (10^6 values in the kernel's vm);
+    # built and kernel-checked by coqc here, kept out of Props/C13.v's dependencies because coqchk has no vm
+    proved = ck.prove(extra_targets=["Proofs/Codec.v", "Proofs/PyFloatExhaustive.v", "Model/EventWire.v"])
     rng = ck.rng
     thorough = ck.tier == "thorough"
     schema = get_json_schema("event")
